@@ -990,8 +990,10 @@ std::string getClassification(const std::string &guideline, ReportType reportTyp
         if (components.size() != 2)
             return "";
 
-        const int a = std::stoi(components[0]);
-        const int b = std::stoi(components[1]);
+        // the guideline comes from a finding id (addon output): it need not be numeric
+        int a, b;
+        if (!strToInt(components[0], a) || !strToInt(components[1], b))
+            return "";
 
         const std::vector<checkers::MisraInfo> *info = nullptr;
         switch (reportType) {
@@ -1036,9 +1038,9 @@ std::string getClassification(const std::string &guideline, ReportType reportTyp
         if (components.size() != 3)
             return "";
 
-        const int a = std::stoi(components[0]);
-        const int b = std::stoi(components[1]);
-        const int c = std::stoi(components[2]);
+        int a, b, c;
+        if (!strToInt(components[0], a) || !strToInt(components[1], b) || !strToInt(components[2], c))
+            return "";
 
         const auto it = std::find_if(info->cbegin(), info->cend(), [&](const checkers::MisraCppInfo &i) {
                 return i.a == a && i.b == b && i.c == c;
